@@ -280,6 +280,10 @@ def _field_to_iso8583(bit_config, field_value, encoding=DEFAULT_ENCODING):
 
     if length_size > 0:
         field_length = len(field_value)
+        # a value longer than the length prefix can count cannot be represented - refuse it
+        if field_length >= 10 ** length_size:
+            raise Iso8583DataError(
+                f'Field value length {field_length} exceeds the maximum for a {bit_config["field_type"]} field')
         output += format(field_length, '0' + str(length_size)).encode(encoding)
 
     if isinstance(field_value, bytes):
